@@ -847,6 +847,55 @@ def nonaffine_transform(op):
     return mt.ThinPlateSplines(PointCloud(pts), PointCloud(src))
 
 
+def reused_transform(t, d):
+    """the same map as `t`, held by an object with a previous life: built on other parameters, used for a
+    landmark-carrying warp of a small image (which asks it for apply() and pseudoinverse()), then brought to
+    t's parameters through the public update of its class (set_target for the alignments, from_vector_inplace /
+    set_h_matrix for the matrix family).  Classes without such an update are returned as they are."""
+    import numpy as np
+    from menpo.image import Image
+    from menpo.shape import PointCloud
+    from menpo.base import Targetable, Vectorizable
+    try:
+        if isinstance(t, Targetable):
+            want = t.target.points.copy()
+            o = t.copy()
+            shift = np.linspace(0.25, 1.0, want.size).reshape(want.shape)
+            o.set_target(PointCloud(want + shift))
+            update = lambda: o.set_target(PointCloud(want))
+        elif type(t).__name__ in ("Homogeneous", "Affine"):
+            hm = t.h_matrix.copy()
+            o = t.copy()
+            other = hm.copy()
+            other[:d, d] += 0.75
+            o.set_h_matrix(other, skip_checks=True)
+            update = lambda: o.set_h_matrix(hm, skip_checks=True)
+        elif isinstance(t, Vectorizable) and t.n_parameters:
+            v = t.as_vector().copy()
+            # only when the parameter vector reproduces the matrix bit for bit (a fresh object decides), so that
+            # exact sampling ties of the recipe stay exact
+            if not np.array_equal(t.from_vector(v).h_matrix, t.h_matrix):
+                return t
+            o = t.from_vector(v + np.linspace(0.125, 0.5, v.size))
+            update = lambda: o._from_vector_inplace(v)
+        else:
+            return t
+    except Exception:
+        return t
+    small = Image(np.arange(float(4 ** d)).reshape((1,) + (4,) * d))
+    small.landmarks["p"] = PointCloud(np.full((2, d), 1.5) + np.arange(2)[:, None] * 0.5)
+    try:
+        small.warp_to_shape((3,) * d, o, warp_landmarks=True, order=1)
+    except Exception:
+        pass
+    try:
+        o.pseudoinverse()
+    except Exception:
+        pass
+    update()
+    return o
+
+
 def call_op(im, case, return_transform=True):
     """the real public API; returns (result, transform) — or a list of pyramid levels for the pyramids"""
     import numpy as np
@@ -899,6 +948,8 @@ def call_op(im, case, return_transform=True):
         return im.crop_to_true_mask(boundary=op["boundary"], **ckw)
     if n in WARPS:
         t = class_transform(op) if n == "warp_class" else make_transform(op, d) if "matrix" in op else nonaffine_transform(op)
+        if op.get("life") == "reused":
+            t = reused_transform(t, d)
         mk = mode_kwargs(op["mode"])
         if case["cls"] == "bool":
             mk = {k: (bool(v) if k == "cval" else v) for k, v in mk.items()}
@@ -1922,6 +1973,9 @@ def finish_case(rng, case):
     depend on it)"""
     if case["op"]["name"] in WARPS:
         case["op"]["batch"] = rng.choice([None, None, None, 5, 16, 1000])
+        # previous life of the transform object (seeded C01-3: a memo inside the transform that a later public
+        # update does not refresh only shows when ONE object is used for a warp, re-aimed, and used again)
+        case["op"]["life"] = rng.choice(["fresh", "fresh", "reused"])
     return fix_cval(case)
 
 
